@@ -6,6 +6,12 @@
 // tokens (newlines, comments) are not modelled, only remembered as "something
 // was appended at the end" because that matters for one narrow classification.
 //
+// The comments of the initial file are kept as a ledger: every comment is
+// either attached to an item (lead comment lines directly above it, a comment
+// on its line, a comment inside it) or free-standing in a body. A comment
+// leaves the ledger only together with the item it is attached to (or, for a
+// comment inside an item, when that item is edited); see Body.Comments.
+//
 // The operations follow the doc comments in hclwrite/ast_body.go and
 // hclwrite/ast_block.go:
 //
@@ -18,6 +24,7 @@
 package refwriter
 
 import (
+	"sort"
 	"strconv"
 	"strings"
 )
@@ -47,15 +54,34 @@ type Item struct {
 	NoEOL bool
 	// TypeSets counts SetType calls on a block.
 	TypeSets int
+	// Comments are the comments of the initial file that are attached to the
+	// item (read-only once set; shared between clones).
+	Comments []Comment
 
 	// Handle is an opaque slot for the caller (the real object this item
 	// corresponds to). The model never looks at it.
 	Handle any
 }
 
+// Comment is one comment of the source a tree was read from.
+type Comment struct {
+	Seq  int    // position in that source (byte offset of the comment)
+	Text string // caller-defined normalised text
+	// Kind says what the comment belongs to: "lead" (whole-line comments
+	// directly above an item, or a comment in front of it on its line), "line"
+	// (behind an item on the line where it ends), "inner" (inside the item, not
+	// inside a nested body) or "free" (belongs to no item of its body).
+	Kind string
+	// Of names the item a non-free comment is attached to (for messages only).
+	Of string
+}
+
 // Body is an ordered list of items.
 type Body struct {
 	Items []*Item
+	// Free are the free-standing comments of the body in the initial file
+	// (read-only once set; shared between clones).
+	Free []Comment
 	// OneLine: the body belongs to a block written on a single line in the
 	// initial file (`blk { a = 1 }`).
 	OneLine bool
@@ -152,11 +178,14 @@ func (b *Body) AppendBlock(it *Item) {
 	b.Items = append(b.Items, it)
 }
 
-// RemoveBlock models Body.RemoveBlock: identity, this body only.
+// RemoveBlock models Body.RemoveBlock: identity, this body only. The comments
+// attached to the block itself (not those inside its body) leave the ledger
+// for good, even if the block is appended again later.
 func (b *Body) RemoveBlock(blk *Item) bool {
 	for i, it := range b.Items {
 		if it == blk && it.Block {
 			b.Items = append(b.Items[:i:i], b.Items[i+1:]...)
+			it.Comments = nil
 			return true
 		}
 	}
@@ -167,6 +196,25 @@ func (it *Item) SetType(t string) { it.Type, it.Touched = t, true; it.TypeSets++
 
 func (it *Item) SetLabels(ls []string) {
 	it.Labels, it.Touched = append([]string(nil), ls...), true
+}
+
+// Comments lists, in source order, the comments of the initial file that are
+// still due directly in this body (not in the bodies of nested blocks): the
+// free-standing ones, and those attached to an item that is still an item of
+// the body. A comment inside an item (Kind "inner": inside an expression or a
+// block header) is due only while no edit targeted the item.
+func (b *Body) Comments() []Comment {
+	out := append([]Comment(nil), b.Free...)
+	for _, it := range b.Items {
+		for _, c := range it.Comments {
+			if c.Kind == "inner" && it.Touched {
+				continue
+			}
+			out = append(out, c)
+		}
+	}
+	sort.SliceStable(out, func(i, j int) bool { return out[i].Seq < out[j].Seq })
+	return out
 }
 
 // FirstMatching models FirstMatchingBlock.
@@ -226,7 +274,7 @@ func (it *Item) clone() *Item {
 
 // Clone copies a body deeply (handles are dropped).
 func (b *Body) Clone() *Body {
-	c := &Body{OneLine: b.OneLine, TailSep: b.TailSep, Items: make([]*Item, len(b.Items))}
+	c := &Body{OneLine: b.OneLine, TailSep: b.TailSep, Free: b.Free, Items: make([]*Item, len(b.Items))}
 	for i, it := range b.Items {
 		c.Items[i] = it.clone()
 	}
